@@ -727,7 +727,7 @@ func (h *c04Hist) stuck(what string) {
 		}
 	}
 	dump, short := "", ""
-	outcomeLost, killAck := false, false
+	outcomeLost, killAck, rlock := false, false, false
 	for _, blk := range strings.Split(full, "\n\n") {
 		if !strings.HasPrefix(blk, "goroutine ") {
 			continue
@@ -752,6 +752,9 @@ func (h *c04Hist) stuck(what string) {
 		if strings.Contains(blk, "[chan receive") && strings.Contains(blk, "safeacks.(*SafeAcks).TryReceiveAck(") && strings.Contains(blk, "task.(*Manager).KillTasks(") {
 			killAck = true
 		}
+		if strings.Contains(blk, "[sync.RWMutex.RLock") && strings.Contains(blk, "environment.(*Manager).environment(") && strings.Contains(blk, "environment.(*Manager).TeardownEnvironment(") {
+			rlock = true
+		}
 	}
 	_ = os.WriteFile(fmt.Sprintf("%s/hang-%03d.txt", h.c.OutDir, h.p.Index), []byte(dump), 0o644)
 	if d := os.Getenv("VERIF_C04_DUMP"); d != "" {
@@ -771,6 +774,11 @@ func (h *c04Hist) stuck(what string) {
 		// kill whose TASK_KILLED was consumed before the acknowledgement was registered (the task was killed by a
 		// concurrent cleanup between KillTasks' filter and its registration).
 		h.c.Count("histories_abandoned_kill_ack_never_received", 1)
+	case rlock:
+		// Attributed, outside this property (progress): TeardownEnvironment takes the environment manager's read
+		// lock and then calls environment(), which takes it again; with a writer queued in between (another
+		// teardown) all three wait for each other and every API call blocks.
+		h.c.Count("histories_abandoned_envman_recursive_rlock_deadlock", 1)
 	default:
 		h.c.Inconclusive(fmt.Sprintf("history %d: %s; blocked goroutines of the core: %s", h.p.Index, what, truncate(short, 3000)))
 	}
